@@ -7,13 +7,13 @@ Open Scope string_scope.
 Definition map_range_sites : list (string * string * string) :=
   [("internal/model/model.go", "*BinaryModel.AddOption", "collect-then-sort");
    ("internal/parser/common.go", "WriteCodeToFile", "effects");
-   ("internal/parser/cpp_generator.go", "CppGenerator.generateCodeForPacket", "effects");
+   ("internal/parser/cpp_generator.go", "CppGenerator.generateCodeForPacket", "collect-then-sort");
    ("internal/parser/go_generator.go", "GoGenerator.Generate", "keyed-insert");
    ("internal/parser/java_generator.go", "JavaGenerator.Generate", "keyed-insert");
-   ("internal/parser/py_generator.go", "PythonGenerator.generateCodeForPacket", "effects");
+   ("internal/parser/py_generator.go", "PythonGenerator.generateCodeForPacket", "collect-then-sort");
+   ("internal/parser/rust_generator.go", "NewRustGenerator", "effects");
    ("internal/parser/rust_generator.go", "RustGenerator.Generate", "keyed-insert");
-   ("internal/parser/rust_generator.go", "RustGenerator.generateLibCode", "effects");
-   ("internal/parser/rust_generator.go", "RustGenerator.generateUseCode", "effects")].
+   ("internal/parser/rust_generator.go", "RustGenerator.generateLibCode", "collect-then-sort")].
 
 (* every statement of the generator / cmd sources that writes memory of the parsed model *)
 Definition model_mutation_sites : list (string * string * string) :=
